@@ -1,11 +1,20 @@
 (* C17 — Turbotunnel packet adapters: no surfaced errors, leaks or aliasing.
-   Statements only; proofs are in Proofs/{GoHeap,ClientMap,QueueConn,QueueOut,Redial,RedialOverlap}Proofs.v.
+   Statements only; proofs are in Proofs/{GoHeap,ClientMap,QueueConn,QueueOut,QueueRetention,Redial,RedialOverlap}Proofs.v.
    Models: Model/GoHeap.v (container/heap), Model/ClientMap.v (clientMapInner, explicit clock),
    Model/QueueConn.v (QueuePacketConn), Model/Redial.v (RedialPacketConn; error channel capacity
-   0 = the pinned code, 1 = the repaired code). *)
+   0 = the pinned code, 1 = the repaired code).
+
+   OBSERVED, NOT PROVED: "without aliasing the caller's buffers".  Payloads are values in
+   Model/QueueConn.v, so no theorem below can speak about who owns a slice.  The clause is checked on
+   the Go code only: the drivers (harness/overlay/zz_verif/turbotunnel/{main,redial,sweep}.go)
+   overwrite every buffer they passed to QueueIncoming / WriteTo as soon as the call returns, and
+   once more at the end of the case, overwrite every slice they received from an outgoing queue and
+   every buffer ReadFrom filled, and then compare what the connection hands out with these value
+   models (lib/checks/c17.py: keys queueconn-fifo, sweep-lost, "!aliased-*" answers of the redial
+   driver). *)
 From Coq Require Import List NArith ZArith Bool Arith Lia Permutation.
 From Snow Require Import Model.GoHeap Model.ClientMap Model.QueueConn Model.Redial.
-From Snow Require Import Proofs.GoHeapProofs Proofs.ClientMapProofs Proofs.QueueConnProofs Proofs.QueueOutProofs Proofs.RedialProofs Proofs.RedialOverlapProofs.
+From Snow Require Import Proofs.GoHeapProofs Proofs.ClientMapProofs Proofs.QueueConnProofs Proofs.QueueOutProofs Proofs.QueueRetentionProofs Proofs.RedialProofs Proofs.RedialOverlapProofs.
 Import ListNotations.
 
 (* ================================================================ container/heap (GoHeap.v) *)
@@ -127,7 +136,8 @@ Proof.
 Qed.
 
 (* sweeps every `period` (= timeout/2 in NewClientMap): some sweep falls in [timeout, timeout + period)
-   after the client was last seen, i.e. removal within 1.5 timeouts nominally *)
+   after the client was last seen, i.e. removal within 1.5 timeouts nominally.  (Arithmetic only; the
+   statement over the model of the sweeper goroutine is C17_ticker_idle_client_removal_window below.) *)
 Theorem C17_sweep_within_timeout_plus_period : forall t0 period timeout last_seen : Z,
   (0 < period)%Z -> exists k : Z, (timeout <= t0 + k * period - last_seen < timeout + period)%Z.
 Proof.
@@ -164,7 +174,8 @@ Proof.
 Qed.
 
 (* outgoing side: what OutgoingQueue(a) hands out is a prefix, in order, of what WriteTo(_, a)
-   accepted; the rest is still queued (while no client is expired) *)
+   accepted; the rest is still queued (histories without sweeps and held receives; the statement for
+   ARBITRARY histories is C17_queue_fifo_per_addr_any_history below) *)
 Theorem C17_queue_fifo_per_addr : forall cap timeout ops a,
   forallb no_expiry ops = true ->
   let '(s', outs) := qrun cap timeout ops qc_empty in
@@ -210,6 +221,184 @@ Example C17_queue_hyps_satisfiable :
   = [OIncoming true; OIncoming true; OIncoming false; ORead [1%N] 7%N; OWrote 1 0 true;
      ORecv 0 (RcvPkt [5%N]); OCloseOk; OErrClosed; OErrClosed].
 Proof. vm_compute. reflexivity. Qed.
+
+(* ================================================================ outgoing queues, arbitrary histories
+   (Proofs/QueueRetentionProofs.v).  A history is ANY list of operations: WriteTo (enqueue),
+   OutgoingQueue + receive (dequeue), a receive on a channel obtained earlier (QHeldRecv), sweeps of
+   the client map at arbitrary instants, QueueIncoming, ReadFrom, Close; clock readings are
+   arbitrary integers (also non-monotonic).  [rec_of c a] is the record of address a: last seen,
+   the identity of its queue, and the queue's contents in order. *)
+
+(* the exact effect of every operation, after every history, on the record of every address
+   ([rec_after]: WriteTo/OutgoingQueue refresh last-seen and keep the queue -- or make a fresh
+   empty one when the address has none --, then enqueue at the tail unless full / dequeue at the
+   head; a receive on a held channel dequeues from that queue only; a sweep removes the record iff
+   now - last_seen >= timeout; everything else leaves it alone) and the answer it gives *)
+Theorem C17_queue_step_per_addr : forall cap timeout ops o a,
+  let s := fst (qrun cap timeout ops qc_empty) in
+  rec_of (clients (fst (qstep cap timeout s o))) a =
+    rec_after cap timeout a (next_qid (clients s)) (qclosed s) (rec_of (clients s) a) o /\
+  (forall x, out_after cap a (next_qid (clients s)) (qclosed s) (rec_of (clients s) a) o = Some x ->
+     snd (qstep cap timeout s o) = x).
+Proof.
+  intros cap timeout ops o a s.
+  destruct (qstep_rec cap timeout s o a (proj1 (reach_inv cap timeout ops))) as (_ & H1 & H2). auto.
+Qed.
+
+(* a client seen within the timeout keeps its queue at a sweep: the same queue (identity), the same
+   last-seen, THE SAME CONTENTS IN THE SAME ORDER, and the queue is not closed *)
+Theorem C17_queue_kept_with_contents : forall cap timeout ops now a r,
+  let s := fst (qrun cap timeout ops qc_empty) in
+  let s' := fst (qstep cap timeout s (QSweep now)) in
+  rec_of (clients s) a = Some r -> (now - c_seen r < timeout)%Z ->
+  rec_of (clients s') a = Some r /\ out_q (clients s') a = c_q r /\
+  ~ In (c_qid r) (map fst (dead (clients s'))).
+Proof.
+  intros cap timeout ops now a r s s'. destruct (reach_inv cap timeout ops) as [H1 H2].
+  apply (sweep_kept cap timeout s now a r); auto.
+Qed.
+
+(* a sweep removes a record, or closes a queue, only when now - last_seen >= timeout (the code's
+   comparison); a record that is not kept unchanged is removed; a sweep creates or alters nothing *)
+Theorem C17_queue_not_removed_early : forall cap timeout ops now,
+  let s := fst (qrun cap timeout ops qc_empty) in
+  let s' := fst (qstep cap timeout s (QSweep now)) in
+  (forall a r, rec_of (clients s) a = Some r -> rec_of (clients s') a <> Some r ->
+     (now - c_seen r >= timeout)%Z /\ rec_of (clients s') a = None) /\
+  (forall e, In e (dead (clients s')) -> ~ In e (dead (clients s)) ->
+     exists r, rec_of (clients s) (c_addr r) = Some r /\ e = (c_qid r, c_q r) /\ (now - c_seen r >= timeout)%Z) /\
+  (forall a r, rec_of (clients s') a = Some r -> rec_of (clients s) a = Some r).
+Proof.
+  intros cap timeout ops now s s'. apply (sweep_not_early cap timeout s now). apply (proj1 (reach_inv cap timeout ops)).
+Qed.
+
+(* the first sweep at or after last_seen + timeout removes the client and closes its queue; the
+   packets still queued stay in the closed channel (the pair in [dead]) and no live queue has that
+   identity any more: they are dropped with the queue *)
+Theorem C17_queue_removed_by_next_sweep : forall cap timeout ops now a r,
+  let s := fst (qrun cap timeout ops qc_empty) in
+  let s' := fst (qstep cap timeout s (QSweep now)) in
+  rec_of (clients s) a = Some r -> (now - c_seen r >= timeout)%Z ->
+  rec_of (clients s') a = None /\ out_q (clients s') a = [] /\
+  In (c_qid r, c_q r) (dead (clients s')) /\
+  (forall r', In r' (byAge (clients s')) -> c_qid r' <> c_qid r).
+Proof.
+  intros cap timeout ops now a r s s'. apply (sweep_removed cap timeout s now a r). apply (proj1 (reach_inv cap timeout ops)).
+Qed.
+
+(* ... and when the address is used again it gets a NEW queue: identity greater than that of every
+   queue ever made (open or closed), empty *)
+Theorem C17_new_queue_after_expiry_is_fresh : forall cap timeout ops a now,
+  let s := fst (qrun cap timeout ops qc_empty) in
+  rec_of (clients s) a = None ->
+  let c' := fst (send_queue a now (clients s)) in
+  let k := snd (send_queue a now (clients s)) in
+  rec_of c' a = Some (mkrec a now k []) /\ k = next_qid (clients s) /\
+  (forall r, In r (byAge (clients s)) -> c_qid r < k) /\ (forall e, In e (dead (clients s)) -> fst e < k).
+Proof.
+  intros cap timeout ops a now s Hnone. destruct (reach_inv cap timeout ops) as [H1 H2].
+  apply new_queue_fresh; auto.
+Qed.
+
+(* non-vacuity, with non-empty queues: client 7 (seen at 5, one packet left after a receive) is kept by
+   the sweep at 14 with its packet; client 8 (seen at 4, one packet) is removed and its queue closed
+   with the packet in it; timeout 10 *)
+Example C17_retention_hyps_satisfiable :
+  let ops := [QWrite [1%N] 7%N 0%Z; QWrite [2%N] 7%N 1%Z; QWrite [9%N] 8%N 4%Z; QOutRecv 7%N 5%Z] in
+  let s := fst (qrun 4 10%Z ops qc_empty) in
+  let s' := fst (qstep 4 10%Z s (QSweep 14%Z)) in
+  rec_of (clients s) 7%N = Some (mkrec 7 5 0 [[2%N]]) /\ (14 - 5 < 10)%Z /\
+  rec_of (clients s) 8%N = Some (mkrec 8 4 1 [[9%N]]) /\ (14 - 4 >= 10)%Z /\
+  rec_of (clients s') 7%N = Some (mkrec 7 5 0 [[2%N]]) /\ rec_of (clients s') 8%N = None /\
+  dead (clients s') = [(1, [[9%N]])] /\
+  rec_of (clients (fst (qstep 4 10%Z s' (QSweep 15%Z)))) 7%N = None /\
+  snd (send_queue 8%N 20%Z (clients s')) = 2.
+Proof. vm_compute. repeat split; try reflexivity; discriminate. Qed.
+
+(* FIRST-IN-FIRST-OUT PER ADDRESS OVER ARBITRARY HISTORIES (sweeps, held receives, Close included).
+   [ep_run] is bookkeeping over the observable trace only (Proofs/QueueRetentionProofs.v): for
+   address a it keeps, SINCE a's QUEUE WAS (RE)CREATED, e_w = the packets WriteTo(_, a) enqueued
+   (drops at capacity are the writes answered `accepted = false`; C17_never_blocks says when) and
+   e_r = the packets receivers of that queue took (through OutgoingQueue(a) or a held reference
+   to the same queue), e_seen = the clock reading of the last WriteTo/OutgoingQueue for a; a sweep
+   at `now` ends the bookkeeping iff now - e_seen >= timeout, every other sweep leaves it alone.
+   Then, after every history:
+   - if the bookkeeping has an open epoch, a has a queue, it is the one created at the start of
+     the epoch (same identity all along, so across every sweep that did not expire a), last seen
+     at e_seen, and written = received ++ still queued: what receivers got is, in order, exactly a
+     prefix of what was accepted since the queue was created, the rest is still queued in order;
+   - otherwise a has no queue.  What was queued when a WAS expired is therefore not delivered to
+     any later receiver of OutgoingQueue(a): it went with the closed queue
+     (C17_queue_removed_by_next_sweep), and the next epoch starts from an empty fresh queue
+     (C17_new_queue_after_expiry_is_fresh). *)
+Theorem C17_queue_fifo_per_addr_any_history : forall cap timeout ops a,
+  let '(s', outs) := qrun cap timeout ops qc_empty in
+  match ep_run timeout a None ops outs with
+  | None => rec_of (clients s') a = None /\ out_q (clients s') a = []
+  | Some e => exists r, rec_of (clients s') a = Some r /\ c_seen r = e_seen e /\ c_qid r = e_qid e /\
+                        e_w e = e_r e ++ out_q (clients s') a
+  end.
+Proof. exact epoch_fifo_from_empty. Qed.
+
+(* non-vacuity: writes, a sweep that keeps the client (12 - 3 < 10), a receive through OutgoingQueue, a
+   held receive on the same queue, a full queue (cap 3) dropping a write; then an expiry (30 - 13 >= 10)
+   with one packet still queued, a held receive draining the closed queue, and a new epoch in which only
+   what was written after the expiry is delivered *)
+Example C17_fifo_any_history_satisfiable :
+  let ops1 := [QWrite [1%N] 7%N 0%Z; QWrite [2%N] 7%N 3%Z; QSweep 12%Z; QOutRecv 7%N 13%Z; QWrite [3%N] 7%N 13%Z;
+               QWrite [4%N] 7%N 13%Z; QWrite [5%N] 7%N 13%Z; QHeldRecv 0; QSweep 22%Z] in
+  let ops2 := ops1 ++ [QSweep 30%Z; QHeldRecv 0; QWrite [6%N] 7%N 31%Z; QOutRecv 7%N 32%Z] in
+  ep_run 10%Z 7%N None ops1 (snd (qrun 3 10%Z ops1 qc_empty)) = Some (mkep 13 0 [[1%N]; [2%N]; [3%N]; [4%N]] [[1%N]; [2%N]]) /\
+  out_q (clients (fst (qrun 3 10%Z ops1 qc_empty))) 7%N = [[3%N]; [4%N]] /\
+  snd (qrun 3 10%Z ops2 qc_empty) =
+    [OWrote 1 0 true; OWrote 1 0 true; ONone; ORecv 0 (RcvPkt [1%N]); OWrote 1 0 true; OWrote 1 0 true; OWrote 1 0 false;
+     ORecv 0 (RcvPkt [2%N]); ONone; ONone; ORecv 0 (RcvPkt [3%N]); OWrote 1 1 true; ORecv 1 (RcvPkt [6%N])] /\
+  ep_run 10%Z 7%N None ops2 (snd (qrun 3 10%Z ops2 qc_empty)) = Some (mkep 32 1 [[6%N]] [[6%N]]) /\
+  dead (clients (fst (qrun 3 10%Z ops2 qc_empty))) = [(0, [[4%N]])].
+Proof. vm_compute. repeat split; reflexivity. Qed.
+
+(* ---------------------------------------------------------------- the sweeper goroutine of NewClientMap
+   for { time.Sleep(period); removeExpired(time.Now(), timeout) } with period = timeout/2, idealised:
+   the k-th sweep happens at phase + k*period (k = 1, 2, ...; ANY phase).  [ticked phase period 0 segs]
+   is the history in which the i-th segment of (arbitrary) operations is followed by the i-th sweep. *)
+
+(* a client whose record r exists after `length pre` sweeps and was not yet due at the last of them,
+   and that is idle from then on (no WriteTo/OutgoingQueue for it, no receive on its queue; anything
+   else may happen): there is an n >= 1 -- the first sweep at or after last_seen + timeout, and that
+   sweep comes BEFORE last_seen + timeout + period (= 1.5 timeouts for period = timeout/2) -- such that
+   after fewer than n further sweeps the client still has the same queue with the same contents (never
+   discarded before it has been idle for the full timeout), and after n or more it is gone and its
+   queue is closed *)
+Theorem C17_ticker_idle_client_removal_window : forall cap timeout phase period pre a r,
+  (0 < period)%Z ->
+  let k0 := length pre in
+  let s := fst (qrun cap timeout (ticked phase period 0 pre) qc_empty) in
+  rec_of (clients s) a = Some r ->
+  (tick phase period k0 < c_seen r + timeout)%Z ->
+  exists n, 1 <= n /\
+    (c_seen r + timeout <= tick phase period (k0 + n) < c_seen r + timeout + period)%Z /\
+    forall segs, Forall (fun seg => forallb (idle_op a (c_qid r)) seg = true) segs ->
+      let s' := fst (qrun cap timeout (ticked phase period 0 (pre ++ segs)) qc_empty) in
+      (length segs < n -> rec_of (clients s') a = Some r /\ out_q (clients s') a = c_q r) /\
+      (n <= length segs -> rec_of (clients s') a = None /\ In (c_qid r) (map fst (dead (clients s')))).
+Proof. exact ticker_idle_client. Qed.
+
+(* non-vacuity: timeout 10, period 5, phase 1 (sweeps at 6, 11, 16, ...); client 7 written at 3 with
+   one packet, kept by the sweeps at 6 and 11 (while client 8 is busy), gone at 16 < 3 + 10 + 5 *)
+Example C17_ticker_hyps_satisfiable :
+  let pre := [[QWrite [1%N] 7%N 3%Z]] in
+  let s := fst (qrun 4 10%Z (ticked 1 5 0 pre) qc_empty) in
+  let r := mkrec 7 3 0 [[1%N]] in
+  rec_of (clients s) 7%N = Some r /\ (tick 1 5 (length pre) < c_seen r + 10)%Z /\
+  let segs := [[QWrite [2%N] 8%N 7%Z; QHeldRecv 1]; [QOutRecv 8%N 12%Z]] in
+  Forall (fun seg => forallb (idle_op 7%N (c_qid r)) seg = true) segs /\
+  rec_of (clients (fst (qrun 4 10%Z (ticked 1 5 0 (pre ++ [[QWrite [2%N] 8%N 7%Z; QHeldRecv 1]])) qc_empty))) 7%N = Some r /\
+  rec_of (clients (fst (qrun 4 10%Z (ticked 1 5 0 (pre ++ segs)) qc_empty))) 7%N = None /\
+  (3 + 10 <= tick 1 5 (1 + 2) < 3 + 10 + 5)%Z.
+Proof.
+  vm_compute. split; [reflexivity|]. split; [reflexivity|]. split; [repeat constructor|].
+  split; [reflexivity|]. split; [reflexivity|]. split; [discriminate | reflexivity].
+Qed.
 
 (* ================================================================ redialing connection (Redial.v) *)
 (* `reachable ecap qcap s`: s is reached from the initial state by some trace of the interleaving
